@@ -67,16 +67,25 @@ def inventoryOk : Bool :=
 def noStale : Bool :=
   classified.all fun c => Gen.panicSites.any fun s => c.1 == s.1 && c.2.1 == s.2.1
 
-/-! ### `span_to_loc` / `lookup_char_pos` (diag.rs:613-657): byte position (1-based) ↦ (line 1-based, column in chars 0-based) -/
+/-! ### `span_to_loc` / `lookup_char_pos` (diag.rs:613-657): byte position (1-based) ↦ (line 1-based, column 0-based).
+The column counts UTF-16 code units, as swc does (`MultiByteChar::byte_to_char_diff`: a character of 1–3 UTF-8 bytes is one
+unit, one of 4 bytes — outside the basic plane: an emoji — is two) and as editors do. -/
 
 def isContinuation (b : UInt8) : Bool := b.toNat / 64 == 2
+
+/-- the lead byte of a 4-byte UTF-8 sequence -/
+def isLead4 (b : UInt8) : Bool := decide (240 ≤ b.toNat)
+
+/-- UTF-16 code units of a run of UTF-8 bytes: one per character, one more per character outside the basic plane -/
+def units (bs : List UInt8) : Nat :=
+  (bs.filter (fun b => !isContinuation b)).length + (bs.filter isLead4).length
 
 /-- line and column of byte position `pos` (1 ≤ pos ≤ len + 1) in `src` -/
 def charPos (src : String) (pos : Nat) : Nat × Nat :=
   let pre := src.toUTF8.toList.take (pos - 1)
   let line := 1 + (pre.filter (· == 10)).length
   let lastLine := (pre.reverse.takeWhile (· != 10))
-  (line, (lastLine.filter (fun b => !isContinuation b)).length)
+  (line, units lastLine)
 
 /-- `span_to_loc`: a dummy span (lo = 0 or hi = 0) covers the whole file -/
 def spanToLoc (src : String) (lo hi : Nat) : (Nat × Nat) × (Nat × Nat) :=
